@@ -120,7 +120,10 @@ class Render:
             s = "%s %s %s" % (self.expr(e[2], p), e[1], self.expr(e[3], p + 1))
             return "(" + s + ")" if p < prec else s
         if k == "un":
-            s = e[1] + self.expr(e[2], 6)
+            inner = self.expr(e[2], 6)
+            if e[2][0] == "un" or inner[:1] in "-+&*^!":
+                inner = "(" + inner + ")"
+            s = e[1] + inner
             return "(" + s + ")" if prec > 6 else s
         if k == "paren":
             return "(" + self.expr(e[1]) + ")"
@@ -362,7 +365,7 @@ class Render:
             _, recv, name, ps, rs, b = d
             nm = self.pre(name) if name in ("main", "init") and recv is None else name
             h = self.kwsp("func") + (recv + self.dot() if recv else "") + nm
-            if ps or rs or recv or self.rng.random() < 0.5 or b is None:
+            if ps or rs or recv or sum(map(ord, name)) % 2 == 0 or b is None:
                 h += self.sig(ps, rs)
             if b is None:
                 self.emit(h)
@@ -414,6 +417,7 @@ class Gen:
         self.funcs = []        # (name, params types, result type)
         self.globals = []
         self.consts = []
+        self.readonly = set()
 
     def fresh(self, p="v"):
         self.n += 1
@@ -433,9 +437,11 @@ class Gen:
         if d >= 3 or c < 0.2:
             if vs and r.random() < 0.6:
                 return ident(r.choice(vs))
-            return lit(r.choice([0, 1, 2, 3, 5, 7, 10, 100, 255, 1000, 65535, 123456789]))
+            return lit(r.choice([0, 1, 2, 3, 5, 7, 10, 100, 255, 1000]))
         if c < 0.5:
             op = r.choice(["+", "-", "*", "&", "|", "^"])
+            if op == "*":
+                return ("bin", op, self.e_int(env, d + 1), lit(r.choice([2, 3, 7, 10])))
             return ("bin", op, self.e_int(env, d + 1), self.e_int(env, d + 1))
         if c < 0.58:
             self.feat("div")
@@ -490,9 +496,9 @@ class Gen:
             self.feat("conv")
             return ("conv", t, lit(r.choice([0, 1, 7, 200, 255] if t == U8 else [0, 1, 7, 70000, 2147483647])))
         if c < 0.8:
-            return ("bin", r.choice(["+", "-", "*", "&", "|", "^"]), self.e_small(env, t, d + 1), self.e_small(env, t, d + 1))
+            return ("bin", r.choice(["+", "-", "&", "|", "^"]), self.e_small(env, t, d + 1), self.e_small(env, t, d + 1))
         self.feat("conv")
-        return ("conv", t, self.e_int(env, d + 1))
+        return ("conv", t, ("bin", "&", self.e_int(env, d + 1), lit(127)))
 
     def e_f64(self, env, d=0):
         r = self.rng
@@ -609,7 +615,8 @@ class Gen:
                 return [("var", n, None, e)]
             return [("var", n, t, e)]
         if c < 0.34:
-            cands = [(n, t) for n, t in env if t in (INT, STR, F64, U8, I32)]
+            cands = [(n, t) for n, t in env if t in (INT, STR, F64, U8, I32) and n not in self.readonly
+                     and not n[0] in "KCp"]
             if cands:
                 n, t = r.choice(cands)
                 if t == INT and r.random() < 0.3:
@@ -646,6 +653,7 @@ class Gen:
         if c < 0.66:
             k = r.random()
             i = self.fresh("i")
+            self.readonly.add(i)
             bound = r.randrange(1, 5)
             inner_env = env + [(i, INT)]
             body = self.block(inner_env, depth + 1, r.randrange(1, 3), True, ret)
@@ -663,6 +671,7 @@ class Gen:
                 if ss:
                     self.feat("for-range-slice")
                     v = self.fresh("e")
+                    self.readonly.add(v)
                     body2 = self.block(env + [(i, INT), (v, INT)], depth + 1, 1, True, ret)
                     return [("range", i, v, ident(r.choice(ss)), [println(ident(i), ident(v))] + body2)]
             self.feat("for-cond")
